@@ -15,6 +15,7 @@ _GEN = re.compile(r"::<[^<>]*(?:<[^<>]*(?:<[^<>]*>[^<>]*)*>[^<>]*)*>")
 
 
 _SG_CACHE = {}
+INDEX_VERSION = 4
 
 
 def strip_generics(name):
@@ -648,6 +649,7 @@ class Body:
         self.sum_writes = j.get("sum_writes", ())    # (adt, field) written
         self.sum_aggs = j.get("sum_aggs", ())        # "adt::Variant" aggregates built
         self.sum_edges = j.get("sum_edges", ())      # call-graph successors (body ids)
+        self.sum_fields = j.get("sum_fields", ())    # (adt, field) appearing in any place (read or write)
         self._j = j if "mir" in j else None
         self._loader = loader
         self._mir = None
@@ -680,6 +682,12 @@ class Body:
 
     def writes_field(self, adt_suffix, field):
         for a, f in self.sum_writes:
+            if f == field and (adt_suffix is None or path_endswith(a, adt_suffix)):
+                return True
+        return False
+
+    def touches_field(self, adt_suffix, field):
+        for a, f in self.sum_fields:
             if f == field and (adt_suffix is None or path_endswith(a, adt_suffix)):
                 return True
         return False
@@ -903,10 +911,23 @@ def _summarise(r):
                     calls.add(strip_generics(c["trait"]) + "::" + strip_generics(c["name"]).split("::")[-1])
                 if c.get("impl_self") and c.get("name"):
                     calls.add(strip_generics(re.sub(r"^&(?:'\w+ )?(?:mut )?", "", c["impl_self"])) + "::" + strip_generics(c["name"]).split("::")[-1])
+    fields = set()
+
+    def walk(x):
+        if isinstance(x, list):
+            if len(x) == 6 and x[0] == "field" and isinstance(x[2], str):
+                fields.add((x[2], x[4]))
+                return
+            for y in x:
+                walk(y)
+        elif isinstance(x, dict):
+            for y in x.values():
+                walk(y)
     scan(r["mir"])
+    walk(r["mir"]["blocks"])
     for p in r.get("promoted", []):
         scan(p)
-    return sorted(calls), sorted(writes), sorted(aggs)
+    return sorted(calls), sorted(writes), sorted(aggs), sorted(fields)
 
 
 def _build_index(path):
@@ -936,11 +957,12 @@ def _build_index(path):
         for r in full:
             b = tmpf.bodies[r["id"]]
             edges = sorted(tmpf.callees_of(b)) if b.is_fn_like() else []
-            c, w, a = _summarise(r)
+            c, w, a, fl = _summarise(r)
             h = {k: v for k, v in r.items() if k not in ("mir", "promoted")}
             h["sum_calls"], h["sum_writes"], h["sum_aggs"], h["sum_edges"] = c, w, a, edges
+            h["sum_fields"] = fl
             heads.append(h)
-        idx = {"recs": recs + heads, "offsets": offsets, "size": os.path.getsize(path)}
+        idx = {"recs": recs + heads, "offsets": offsets, "size": os.path.getsize(path), "ver": INDEX_VERSION}
         tmp = path + ".idx.tmp%d" % os.getpid()
         with open(tmp, "wb") as f:
             pickle.dump(idx, f, protocol=pickle.HIGHEST_PROTOCOL)
@@ -962,7 +984,7 @@ def load_facts(paths, cache=True):
                 gc.disable()
                 with open(ip, "rb") as f:
                     idx = pickle.load(f)
-                if idx.get("size") != os.path.getsize(p):
+                if idx.get("size") != os.path.getsize(p) or idx.get("ver") != INDEX_VERSION:
                     idx = None
             except Exception:
                 idx = None
